@@ -369,7 +369,10 @@ def step (ρ : α → α → α → α) (zt : Ztsp) (p : Profile α) : Op α →
     let newRows := List.zipWith (fun z sp => z :: ((y0.set iS sp.1).set iP sp.2)) zs (List.zip Se Pe)
     let rows := p.rows.dropLast ++ newRows               -- l.396
     ({ p with rows := rows, zmax := znew } : Profile α).rebuild            -- l.397-402
-  | .insertDensity (some _) => p                         -- l.686-687: returns, nothing stored
+  | .insertDensity (some q) =>
+    -- `if P0:` / `if not P0:` are Python truthiness tests: P0 = 0.0 behaves like P0 = None
+    if q ≤ 0 ∧ 0 ≤ q then ((p.setCol "density" (densityColumn ρ p none))).rebuild
+    else p                                               -- l.686-687: returns, nothing stored
   | .insertDensity none =>
     ((p.setCol "density" (densityColumn ρ p none))).rebuild                -- l.684, 690
   | .insertPotentialDensity =>
@@ -490,6 +493,8 @@ def dispatch (ρ : Float → Float → Float → Float) : Dispatch := fun name a
     some (profArgs (step ρ zt (mkProfile k rows names zmin zmax ck crows cnames) (.extendDeeper znew S1)))
   | "Profile.insertDensity", [.n k, .v rows, .t names, .s zmin, .s zmax, .n ck, .v crows, .t cnames] =>
     some (profArgs (step ρ zt (mkProfile k rows names zmin zmax ck crows cnames) (.insertDensity none)))
+  | "Profile.insertDensityP0", [.n k, .v rows, .t names, .s zmin, .s zmax, .n ck, .v crows, .t cnames, .s P0] =>
+    some (profArgs (step ρ zt (mkProfile k rows names zmin zmax ck crows cnames) (.insertDensity (some P0))))
   | "Profile.densityAt", [.n k, .v rows, .t names, .s zmin, .s zmax, .n ck, .v crows, .t cnames, .s P0] =>
     some [.v (densityColumn ρ (mkProfile k rows names zmin zmax ck crows cnames) (some P0))]
   | "Profile.insertPotentialDensity", [.n k, .v rows, .t names, .s zmin, .s zmax, .n ck, .v crows, .t cnames] =>
